@@ -43,6 +43,7 @@ CORPORA = {
     "adv": dict(model="MC_Adv", quick={}, thorough={}, profiles=DEV_REL, place="both"),
     "round8": dict(model="MC_Round8", quick={}, thorough={}, profiles=DEV_REL, place="end"),
     "custom": dict(model="MC_Custom", quick=dict(MaxSize=96), thorough=dict(MaxSize=96), profiles=DEV_REL, place="both"),
+    "proto": dict(model="MC_Proto", quick=dict(Depth=3), thorough=dict(Depth=5), profiles=DEV_REL, place="end"),
     "load": dict(model="MC_Load", quick=dict(MaxT=72), thorough=dict(MaxT=160), profiles=DEV_REL, place="both"),
     "walk": dict(model="MC_Walk", quick=dict(MaxT=32), thorough=dict(MaxT=40), profiles=DEV_REL, place="both"),
 }
@@ -113,9 +114,10 @@ CHECKS = {
     "C02": dict(corpora=["load"],
                 rule="cases = all (total size, reserved word, last-8-bytes type/size) in bounds + null pointer; "
                      "non-trivial = every case (each has a distinct specified outcome class or size)"),
-    "C03": dict(corpora=["walk", "load"],
+    "C03": dict(corpora=["walk", "proto", "load"],
                 rule="cases = all lazily chosen header sequences (type in {0,3,99}, size 0..remaining+9) of regions up to MaxT; "
-                     "each drained by a tag iterator, a mid-walk clone and the module iterator"),
+                     "each drained by a tag iterator, a mid-walk clone and the module iterator; histories: all interleavings of length Depth of "
+                     "next/clone on two tag iterators, a clone slot, a module iterator and its clone over 8 representative regions"),
     "C14": dict(corpora=["refslice", "round8"],
                 sweeps=[("round8", None, 1, 1)],
                 rule="cases = all (header kind, slice length, start alignment, declared size) in bounds; "
